@@ -1553,3 +1553,255 @@ func correlatedSafe(ph *ssa.Phi, b *ssa.BasicBlock) bool {
 	}
 	return false
 }
+
+// ---------------------------------------------------------------------------------------------------------------------
+// C15: an IDL file name may contain dots (`common.v1.thrift`), so a qualified name `common.v1.Item` is "everything before
+// the last dot" + "the last segment". The compiler (semantic.SplitType) and the reflection runtime (utils.ParseAlias) must
+// both cut at the last dot. Rule: neither function uses a first-separator primitive on "." and each uses a
+// last-separator idiom.
+func c15lastDot(c *core.Check) {
+	for _, spec := range [][2]string{{"semantic", "SplitType"}, {"utils", "ParseAlias"}} {
+		rel, name := spec[0], spec[1]
+		fd := c.Prog.FuncDecl(rel, name)
+		key := rel + "." + name + "/split"
+		if fd == nil {
+			c.Unknown("anchor", rel+"."+name, "", "missing")
+			continue
+		}
+		info := c.Prog.Pkg(rel).TypesInfo
+		first, last := "", ""
+		isDot := func(e ast.Expr) bool {
+			s, ok := rules.ConstString(info, e)
+			return ok && s == "."
+		}
+		ast.Inspect(fd.Body, func(n ast.Node) bool {
+			switch x := n.(type) {
+			case *ast.CallExpr:
+				fn := rules.Callee(info, x)
+				if fn == nil || fn.Pkg() == nil || fn.Pkg().Path() != "strings" || len(x.Args) < 2 || !isDot(x.Args[1]) {
+					return true
+				}
+				switch fn.Name() {
+				case "SplitN", "Index", "IndexByte", "Cut", "SplitAfterN":
+					first = "strings." + fn.Name()
+				case "LastIndex", "LastIndexByte":
+					last = "strings." + fn.Name()
+				}
+			case *ast.IndexExpr:
+				// arr[len(arr)-1]
+				t := strings.ReplaceAll(rules.ExprString(x.Index), " ", "")
+				if t == "len("+rules.ExprString(x.X)+")-1" {
+					last = rules.ExprString(x)
+				}
+			}
+			return true
+		})
+		c.Decide(first == "" && last != "", "qualified-name-last-dot", key, c.Prog.Rel(fd.Pos()), "the name is cut at the last dot ("+last+")",
+			fmt.Sprintf("%s cuts a qualified name with %s (first dot) / last-dot idiom %q: for an include whose file name contains a dot (common.v1.thrift) the prefix and the name are wrong and cross-file lookups fail", name, first, last))
+	}
+	c.Min("qualified-name-last-dot", 2)
+}
+
+// ---------------------------------------------------------------------------------------------------------------------
+// C16: preProcess answers "is anything kept in this file or below it". Rule: its result only ever grows — the returned
+// variable is initialised from markKeptPart and afterwards only set to true or or-ed; assigning it the result of one
+// recursive call forgets everything found before.
+func c16preProcessMonotone(c *core.Check) {
+	rel := "tool/trimmer/trim"
+	fd := c.Prog.FuncDecl(rel, "Trimmer.preProcess")
+	key := rel + ".(Trimmer).preProcess/result"
+	if fd == nil {
+		c.Unknown("anchor", key, "", "missing")
+		return
+	}
+	info := c.Prog.Pkg(rel).TypesInfo
+	self := info.Defs[fd.Name]
+	// returned variables
+	rets := map[types.Object]bool{}
+	ast.Inspect(fd.Body, func(n ast.Node) bool {
+		if rs, ok := n.(*ast.ReturnStmt); ok && len(rs.Results) == 1 {
+			if id, ok := rs.Results[0].(*ast.Ident); ok {
+				rets[info.Uses[id]] = true
+			}
+		}
+		return true
+	})
+	if len(rets) == 0 {
+		c.Unknown("kept-result-monotone", key, c.Prog.Rel(fd.Pos()), "preProcess does not return a variable")
+		return
+	}
+	var bad []string
+	assigns := 0
+	ast.Inspect(fd.Body, func(n ast.Node) bool {
+		as, ok := n.(*ast.AssignStmt)
+		if !ok {
+			return true
+		}
+		for i, l := range as.Lhs {
+			id, ok := l.(*ast.Ident)
+			if !ok {
+				continue
+			}
+			o := info.Defs[id]
+			if o == nil {
+				o = info.Uses[id]
+			}
+			if !rets[o] || i >= len(as.Rhs) {
+				continue
+			}
+			assigns++
+			rhs := ast.Unparen(as.Rhs[i])
+			okr := false
+			switch x := rhs.(type) {
+			case *ast.Ident:
+				okr = x.Name == "true"
+			case *ast.BinaryExpr:
+				okr = x.Op == token.LOR && (rules.ExprString(x.X) == id.Name || rules.ExprString(x.Y) == id.Name)
+			case *ast.CallExpr:
+				// the initialisation from the file's own kept parts
+				fn := rules.Callee(info, x)
+				okr = fn != nil && types.Object(fn) != self && as.Tok == token.DEFINE
+			}
+			if as.Tok == token.OR_ASSIGN {
+				okr = true
+			}
+			if !okr {
+				bad = append(bad, rules.ExprString(as.Lhs[i])+" = "+rules.ExprString(rhs)+" at "+c.Prog.Rel(as.Pos()))
+			}
+		}
+		return true
+	})
+	c.Decide(len(bad) == 0 && assigns >= 2, "kept-result-monotone", key, c.Prog.Rel(fd.Pos()),
+		fmt.Sprintf("%d assignments: initialised from the file's own kept parts, afterwards only set to true", assigns),
+		fmt.Sprintf("the result of preProcess is overwritten (%v): it then reports only what the last include contains, so a file that is kept for its own constants, typedefs or @preserve structs is reported as empty and its includer drops the include", bad))
+}
+
+// ---------------------------------------------------------------------------------------------------------------------
+// C20: with enable_nested_struct the documented adaptation is "no template given ⇒ slim"; an explicit slim or raw_struct is
+// valid and must be kept. Rule: in args.checkOptions, if the loop that rewrites an explicit template option has an
+// effective write (through the slice element, not through the range copy), its guard must be false when the template is
+// slim or raw_struct — evaluated over the finite set of template names.
+func c20nestedTemplate(c *core.Check) {
+	fd := c.Prog.FuncDecl("args", "Arguments.checkOptions")
+	key := "args.(Arguments).checkOptions/nested-template"
+	if fd == nil {
+		c.Unknown("anchor", key, "", "missing")
+		return
+	}
+	info := c.Prog.Pkg("args").TypesInfo
+	// assignments of "slim" to a .Desc
+	type write struct {
+		as        *ast.AssignStmt
+		effective bool
+		guards    []ast.Expr
+	}
+	var writes []write
+	var stack []ast.Node
+	ast.Inspect(fd.Body, func(n ast.Node) bool {
+		if n == nil {
+			stack = stack[:len(stack)-1]
+			return true
+		}
+		stack = append(stack, n)
+		as, ok := n.(*ast.AssignStmt)
+		if !ok || len(as.Lhs) != 1 || len(as.Rhs) != 1 {
+			return true
+		}
+		se, ok := as.Lhs[0].(*ast.SelectorExpr)
+		if !ok || se.Sel.Name != "Desc" {
+			return true
+		}
+		if s, ok := rules.ConstString(info, as.Rhs[0]); !ok || s != "slim" {
+			return true
+		}
+		w := write{as: as}
+		// effective when the base is an element of a slice/array or a pointer, not a by-value range variable
+		switch b := ast.Unparen(se.X).(type) {
+		case *ast.IndexExpr:
+			w.effective = true
+		case *ast.Ident:
+			if o := info.Uses[b]; o != nil {
+				if _, isPtr := o.Type().Underlying().(*types.Pointer); isPtr {
+					w.effective = true
+				}
+			}
+		case *ast.StarExpr:
+			w.effective = true
+		}
+		for _, p := range stack {
+			if is, ok := p.(*ast.IfStmt); ok && is.Body.Pos() <= as.Pos() && as.End() <= is.Body.End() {
+				if strings.Contains(rules.ExprString(is.Cond), "Template()") {
+					w.guards = append(w.guards, is.Cond)
+				}
+			}
+		}
+		writes = append(writes, w)
+		return true
+	})
+	if len(writes) == 0 {
+		c.OKTrivial("nested-keeps-valid-template", key, c.Prog.Rel(fd.Pos()), "checkOptions no longer rewrites an explicit template option")
+		return
+	}
+	// evaluate a guard for a template name
+	var eval func(e ast.Expr, v string) (bool, bool)
+	eval = func(e ast.Expr, v string) (bool, bool) {
+		switch x := ast.Unparen(e).(type) {
+		case *ast.BinaryExpr:
+			switch x.Op {
+			case token.LOR, token.LAND:
+				a, ok1 := eval(x.X, v)
+				b, ok2 := eval(x.Y, v)
+				if x.Op == token.LOR {
+					return a || b, ok1 && ok2
+				}
+				return a && b, ok1 && ok2
+			case token.EQL, token.NEQ:
+				var lit string
+				var okl bool
+				if strings.HasSuffix(rules.ExprString(x.X), "Template()") {
+					lit, okl = rules.ConstString(info, x.Y)
+				} else if strings.HasSuffix(rules.ExprString(x.Y), "Template()") {
+					lit, okl = rules.ConstString(info, x.X)
+				}
+				if !okl {
+					return false, false
+				}
+				return (v == lit) == (x.Op == token.EQL), true
+			}
+		case *ast.UnaryExpr:
+			if x.Op == token.NOT {
+				a, ok := eval(x.X, v)
+				return !a, ok
+			}
+		}
+		return false, false
+	}
+	for i, w := range writes {
+		wkey := fmt.Sprintf("%s#%d", key, i+1)
+		if !w.effective {
+			c.OK("nested-keeps-valid-template", wkey, c.Prog.Rel(w.as.Pos()), "the rewrite assigns to the range copy and has no effect: an explicit template is never overwritten")
+			continue
+		}
+		var bad []string
+		decided := true
+		for _, v := range []string{"slim", "raw_struct"} {
+			fires := true
+			for _, g := range w.guards {
+				r, ok := eval(g, v)
+				if !ok {
+					decided = false
+				}
+				fires = fires && r
+			}
+			if fires {
+				bad = append(bad, v)
+			}
+		}
+		if !decided {
+			c.Unknown("nested-keeps-valid-template", wkey, c.Prog.Rel(w.as.Pos()), "cannot evaluate the guard of the template rewrite")
+			continue
+		}
+		c.Decide(len(bad) == 0, "nested-keeps-valid-template", wkey, c.Prog.Rel(w.as.Pos()), "the rewrite does not fire for template=slim or template=raw_struct",
+			fmt.Sprintf("with enable_nested_struct an explicit template=%v is overwritten with slim (the guard is true for it): raw_struct, which the README documents as valid for nested structs, silently produces slim code", bad))
+	}
+}
